@@ -55,6 +55,7 @@ import (
 	"google.golang.org/grpc"
 	"google.golang.org/grpc/codes"
 	"google.golang.org/grpc/status"
+	"google.golang.org/protobuf/proto"
 	"rsc.io/binaryregexp"
 )
 
@@ -197,14 +198,16 @@ func (s *server) CreateTable(ctx context.Context, req *btapb.CreateTableRequest)
 	}
 	req.Table.Name = tbl
 	rows := s.storage.Create(req.Table)
+	// The response must not share the family map with the live table definition.
+	resp := proto.Clone(req.Table).(*btapb.Table)
 	s.tables[tbl] = newTable(req.Table, rows)
 
 	s.mu.Unlock()
 
 	ct := &btapb.Table{
 		Name:           tbl,
-		ColumnFamilies: req.GetTable().GetColumnFamilies(),
-		Granularity:    req.GetTable().GetGranularity(),
+		ColumnFamilies: resp.GetColumnFamilies(),
+		Granularity:    resp.GetGranularity(),
 	}
 	if ct.Granularity == 0 {
 		ct.Granularity = btapb.Table_MILLIS
@@ -235,9 +238,10 @@ func (s *server) GetTable(ctx context.Context, req *btapb.GetTableRequest) (*bta
 		return nil, status.Errorf(codes.NotFound, "table %q not found", req.Name)
 	}
 
-	s.mu.Lock()
-	defer s.mu.Unlock()
-	return tbl.def, nil
+	// Return a copy: the response is marshalled after the lock has been released.
+	tbl.mu.RLock()
+	defer tbl.mu.RUnlock()
+	return proto.Clone(tbl.def).(*btapb.Table), nil
 }
 
 func (s *server) DeleteTable(ctx context.Context, req *btapb.DeleteTableRequest) (*emptypb.Empty, error) {
@@ -296,7 +300,8 @@ func (s *server) ModifyColumnFamilies(ctx context.Context, req *btapb.ModifyColu
 	}
 
 	s.storage.SetTableMeta(tbl.def)
-	return tbl.def, nil
+	// Return a copy: the response is marshalled after the lock has been released.
+	return proto.Clone(tbl.def).(*btapb.Table), nil
 }
 
 func (s *server) DropRowRange(ctx context.Context, req *btapb.DropRowRangeRequest) (*emptypb.Empty, error) {
